@@ -327,7 +327,10 @@ func run(t *testing.T, tape *simrt.Tape) *common.Outcome {
 		p.target = g.Int(5)
 	}
 	payload := []int{64, 2000, 70000}[g.Weighted(3, 3, 1)]
-	o.Logf("security=%s psk=%v link=%d payload=%d plan: %s", secu, usePSK, mode, payload, p)
+	// listener side of the TCP transport: 0 = simhost's wrapper Listen, 1 = the real TcpTransport.Listen on a shared-TCP
+	// connection manager (tcpreuse demultiplexing listener + sampledconn; not with a PSK)
+	shared := g.Int(2) == 1 && !usePSK
+	o.Logf("security=%s psk=%v link=%d payload=%d shared-tcp=%v plan: %s", secu, usePSK, mode, payload, shared, p)
 
 	var psk []byte
 	if usePSK {
@@ -349,7 +352,7 @@ func run(t *testing.T, tape *simrt.Tape) *common.Outcome {
 			}
 			rw := simhost.NewRefusingRcmgr(real, "", 0)
 			gt := simhost.NewScriptedGater("")
-			nd, err := simhost.New(n, simhost.Opts{Key: simhost.DetKey(seed), IP: ip, Port: 4001, Security: secu, PSK: psk, Gater: gt, Rcmgr: rw, WithHost: true})
+			nd, err := simhost.New(n, simhost.Opts{Key: simhost.DetKey(seed), IP: ip, Port: 4001, Security: secu, PSK: psk, SharedTCP: shared, Gater: gt, Rcmgr: rw, WithHost: true})
 			if err != nil {
 				o.Trouble = "node: " + err.Error()
 				real.Close()
@@ -630,7 +633,10 @@ func run(t *testing.T, tape *simrt.Tape) *common.Outcome {
 	})
 	o.Sched = res
 	o.Virtual = res.Virtual
-	o.Sig = fmt.Sprintf("%s|%v|%d|%s|%s|fired=%v", secu, usePSK, mode, p, attemptOutcome, fired)
+	o.Sig = fmt.Sprintf("%s|%v|%d|%s|%s|fired=%v|%v", secu, usePSK, mode, p, attemptOutcome, fired, shared)
+	if shared && fired {
+		o.Probe("shared-tcp-outcome-" + attemptOutcome)
+	}
 	o.Nontrivial = fired
 	if fired {
 		o.Probe("outcome-" + attemptOutcome)
